@@ -95,12 +95,13 @@ static bool bfs(const Cfg &cfg, const std::string &cell, size_t max_states, size
 		World *w = build(cfg, h);
 		std::vector<Ev> en = w->enabled(true);
 		delete w;
-		if (en.empty() || true)
 		{
-			// quiescent = nothing in flight; judged on a copy.  (States with messages in flight are judged by the step oracle only.)
-			bool inflight = false;
+			// judged on a throw-away copy: (a) true leaves (nothing enabled at all); (b) for parties that read through Deliver,
+			// every state with nothing in flight (validity must hold for the broadcasts made so far)
+			bool inflight = false, any_from = false;
 			for (size_t i = 0; i < en.size(); i++) if (en[i].k == 'M' || en[i].k == 'F') inflight = true;
-			if (!inflight) judge_leaf(cfg, h, cell);
+			for (int p = 0; p < cfg.n; p++) if (cfg.honest[p]) for (size_t i = 0; i < cfg.prog[p].size(); i++) if (cfg.prog[p][i].k == 'W') any_from = true;
+			if (en.empty() || (!any_from && !inflight)) judge_leaf(cfg, h, cell);
 		}
 		if (h.size() >= max_depth) { if (!en.empty()) complete = false; continue; }
 		for (size_t i = 0; i < en.size(); i++)
@@ -293,33 +294,28 @@ static void add_plain_bfs(int n, int t, bool fifo, const std::vector<int> &bc, s
 // channel programs for n=3,t=0 (variant index -> programs)
 static Cfg chan_cfg(int variant, bool fifo)
 {
-	Cfg c = base_cfg(3, 0, fifo, -1);
+	Cfg c = base_cfg(2, 0, fifo, -1);
 	switch (variant)
 	{
 		case 0: // everybody: broadcast in base, enter inner, broadcast in inner, leave, broadcast in base (party 0 only broadcasts)
 			c.prog[0] = {Ev{'B', 1001, 0, 0}, Ev{'S', 1, 1, 0}, Ev{'B', 1101, 0, 0}, Ev{'U', 0, 0, 0}, Ev{'B', 1002, 0, 0}};
 			c.prog[1] = {Ev{'S', 1, 1, 0}, Ev{'U', 0, 0, 0}};
-			c.prog[2] = {Ev{'S', 1, 1, 0}, Ev{'U', 0, 0, 0}};
 			break;
 		case 1: // two senders in different channels at the same time
 			c.prog[0] = {Ev{'S', 1, 1, 0}, Ev{'B', 1101, 0, 0}, Ev{'U', 0, 0, 0}};
 			c.prog[1] = {Ev{'B', 2001, 0, 0}, Ev{'S', 1, 1, 0}, Ev{'U', 0, 0, 0}};
-			c.prog[2] = {Ev{'S', 1, 1, 0}, Ev{'U', 0, 0, 0}};
 			break;
 		case 2: // leave and recover the inner channel: counters must continue
 			c.prog[0] = {Ev{'S', 1, 1, 0}, Ev{'B', 1101, 0, 0}, Ev{'U', 0, 0, 0}, Ev{'R', 1, 1, 0}, Ev{'B', 1102, 0, 0}, Ev{'U', 0, 0, 0}};
 			c.prog[1] = {Ev{'S', 1, 1, 0}, Ev{'U', 0, 0, 0}, Ev{'R', 1, 1, 0}, Ev{'U', 0, 0, 0}};
-			c.prog[2] = {Ev{'S', 1, 1, 0}, Ev{'U', 0, 0, 0}, Ev{'R', 1, 1, 0}, Ev{'U', 0, 0, 0}};
 			break;
 		case 3: // nested to depth 2
 			c.prog[0] = {Ev{'S', 1, 1, 0}, Ev{'S', 2, 1, 0}, Ev{'B', 1201, 0, 0}, Ev{'U', 0, 0, 0}, Ev{'B', 1101, 0, 0}, Ev{'U', 0, 0, 0}};
 			c.prog[1] = {Ev{'S', 1, 1, 0}, Ev{'S', 2, 1, 0}, Ev{'U', 0, 0, 0}, Ev{'U', 0, 0, 0}};
-			c.prog[2] = {Ev{'S', 1, 1, 0}, Ev{'S', 2, 1, 0}, Ev{'U', 0, 0, 0}, Ev{'U', 0, 0, 0}};
 			break;
 		case 4: // two different sibling channels
 			c.prog[0] = {Ev{'S', 1, 1, 0}, Ev{'B', 1101, 0, 0}, Ev{'U', 0, 0, 0}, Ev{'S', 2, 1, 0}, Ev{'B', 1201, 0, 0}, Ev{'U', 0, 0, 0}};
 			c.prog[1] = {Ev{'S', 1, 1, 0}, Ev{'U', 0, 0, 0}, Ev{'S', 2, 1, 0}, Ev{'U', 0, 0, 0}};
-			c.prog[2] = {Ev{'S', 2, 1, 0}, Ev{'U', 0, 0, 0}, Ev{'S', 1, 1, 0}, Ev{'U', 0, 0, 0}};
 			break;
 	}
 	return c;
@@ -329,31 +325,28 @@ static const int NCHAN = 5;
 // DeliverFrom programs (n=3,t=0): 'W i' = wait for the next value of sender i
 static Cfg from_cfg(int variant)
 {
-	Cfg c = base_cfg(3, 0, true, -1);
+	Cfg c = base_cfg(2, 0, true, -1);
 	switch (variant)
 	{
-		case 0: // plain: everybody broadcasts once and collects from everybody in index order (the DKG pattern)
-			for (int p = 0; p < 3; p++)
+		case 0: // the DKG pattern: everybody broadcasts once and collects from everybody in index order
+			for (int p = 0; p < 2; p++)
 			{
 				c.prog[p].push_back(Ev{'B', (int)val_of(p, 0), 0, 0});
-				for (int i = 0; i < 3; i++) c.prog[p].push_back(Ev{'W', i, 0, 0});
+				for (int i = 0; i < 2; i++) c.prog[p].push_back(Ev{'W', i, 0, 0});
 			}
 			break;
-		case 1: // values of another sender get buffered while waiting; then collected
-			c.prog[0] = {Ev{'B', 1001, 0, 0}, Ev{'W', 1, 0, 0}, Ev{'W', 2, 0, 0}};
-			c.prog[1] = {Ev{'B', 2001, 0, 0}, Ev{'W', 2, 0, 0}, Ev{'W', 0, 0, 0}};
-			c.prog[2] = {Ev{'B', 3001, 0, 0}, Ev{'W', 0, 0, 0}, Ev{'W', 1, 0, 0}};
+		case 1: // reversed collection order: the other sender's value is buffered while waiting
+			c.prog[0] = {Ev{'B', 1001, 0, 0}, Ev{'W', 1, 0, 0}, Ev{'W', 0, 0, 0}};
+			c.prog[1] = {Ev{'B', 2001, 0, 0}, Ev{'W', 0, 0, 0}, Ev{'W', 1, 0, 0}};
 			break;
-		case 2: // a value of sender 2 is buffered in the inner channel and never asked for there; after leaving, sender 2's
-			// base-channel broadcast must still be obtainable (stale buffer entry of another channel)
-			c.prog[0] = {Ev{'S', 1, 1, 0}, Ev{'B', 1101, 0, 0}, Ev{'U', 0, 0, 0}, Ev{'W', 2, 0, 0}};
-			c.prog[1] = {Ev{'S', 1, 1, 0}, Ev{'W', 0, 0, 0}, Ev{'U', 0, 0, 0}, Ev{'W', 2, 0, 0}};
-			c.prog[2] = {Ev{'S', 1, 1, 0}, Ev{'B', 3101, 0, 0}, Ev{'U', 0, 0, 0}, Ev{'B', 3001, 0, 0}};
+		case 2: // a value of sender 0 may get buffered at party 1 in the inner channel and is never asked for there; after leaving,
+			// sender 0's base-channel broadcast must still be obtainable (stale buffer entry tagged with another channel)
+			c.prog[0] = {Ev{'S', 1, 1, 0}, Ev{'B', 1101, 0, 0}, Ev{'U', 0, 0, 0}, Ev{'B', 1001, 0, 0}};
+			c.prog[1] = {Ev{'S', 1, 1, 0}, Ev{'B', 2101, 0, 0}, Ev{'W', 1, 0, 0}, Ev{'U', 0, 0, 0}, Ev{'W', 0, 0, 0}};
 			break;
-		case 3: // QueueFrom puts a value back; it must come out first and in the right channel
-			c.prog[0] = {Ev{'B', 1001, 0, 0}, Ev{'B', 1002, 0, 0}};
+		case 3: // two values from one sender, collected one by one
+			c.prog[0] = {Ev{'B', 1001, 0, 0}, Ev{'B', 1002, 0, 0}, Ev{'W', 0, 0, 0}, Ev{'W', 0, 0, 0}};
 			c.prog[1] = {Ev{'W', 0, 0, 0}, Ev{'W', 0, 0, 0}};
-			c.prog[2] = {Ev{'W', 0, 0, 0}};
 			break;
 	}
 	return c;
@@ -429,18 +422,20 @@ static std::vector<std::pair<size_t, int> > inject_all_at(const Cfg &c, size_t s
 static void build_cells(bool thorough)
 {
 	// 1. full BFS, honest, small systems
-	add_plain_bfs(2, 0, true, {1, 0}, 2000000);
-	add_plain_bfs(2, 0, true, {2, 1}, 2000000);
-	add_plain_bfs(2, 0, false, {2, 1}, 2000000);
-	add_plain_bfs(3, 0, true, {1, 0, 0}, 2000000);
-	add_plain_bfs(3, 0, false, {1, 0, 0}, 2000000);
-	add_plain_bfs(3, 0, true, {2, 0, 0}, 3000000);
+	for (int f = 1; f >= 0; f--)
+	{
+		add_plain_bfs(2, 0, f != 0, {1, 0}, 2000000);
+		add_plain_bfs(2, 0, f != 0, {1, 1}, 2000000);
+		add_plain_bfs(2, 0, f != 0, {2, 0}, 2000000);
+		add_plain_bfs(3, 0, f != 0, {1, 0, 0}, 2000000);
+	}
 	if (thorough)
 	{
-		add_plain_bfs(3, 0, false, {2, 0, 0}, 3000000);
-		add_plain_bfs(3, 0, true, {1, 1, 0}, 3000000);
+		add_plain_bfs(2, 0, true, {2, 1}, 4000000);
+		add_plain_bfs(3, 0, true, {2, 0, 0}, 4000000);
+		add_plain_bfs(3, 0, true, {1, 1, 0}, 4000000);
 	}
-	// 2. channel switching, n=3: full BFS over programs x hand-overs
+	// 2. channel switching, n=3: full BFS over programs x hand-overs (n=2: channel semantics do not depend on n)
 	for (int v = 0; v < NCHAN; v++)
 		for (int f = 1; f >= (thorough ? 0 : 1); f--)
 		{
